@@ -1,5 +1,6 @@
 """Engine-family checks: scenarios (from TLC or the seeded driver) -> vq_run on the real engine under one or more
 configurations -> TraceEngine validation -> classification, replay files, evidence."""
+import concurrent.futures
 import hashlib
 import json
 import os
@@ -24,14 +25,27 @@ def run_parts(prop, parts, workdir, trace_module="TraceEngine", trace_cfg="Trace
     nscen = 0
     with open(all_events, "w") as out:
         for p in parts:
-            sp = os.path.join(workdir, "scen_%s.ndjson" % p["name"])
-            vc.write_ndjson(sp, p["scenarios"])
+            # vq_run is single-threaded and every scenario starts from a fresh database: run chunks of the
+            # scenario list in parallel processes and concatenate their logs in scenario order
+            sc = p["scenarios"]
+            k = max(1, min(vc.NCPU - 2, len(sc) // 200))
+            size = (len(sc) + k - 1) // k if sc else 1
+            chunks = [sc[i:i + size] for i in range(0, len(sc), size)] or [[]]
+            sps = []
+            for j, ch in enumerate(chunks):
+                sp = os.path.join(workdir, "scen_%s_%d.ndjson" % (p["name"], j))
+                vc.write_ndjson(sp, ch)
+                sps.append(sp)
             for c in p.get("configs") or [{"name": "default", "args": []}]:
-                ep = os.path.join(workdir, "ev_%s_%s.ndjson" % (p["name"], c["name"]))
-                vc.run_harness("vq_run", sp, ep, ["--cfg", c["name"]] + c.get("args", []), env=c.get("env"))
-                with open(ep) as fh:
-                    shutil.copyfileobj(fh, out)
-                nscen += len(p["scenarios"])
+                jobs = [(sp, os.path.join(workdir, "ev_%s_%s_%d.ndjson" % (p["name"], c["name"], j))) for j, sp in enumerate(sps)]
+                with concurrent.futures.ThreadPoolExecutor(max_workers=len(jobs)) as ex:
+                    list(ex.map(lambda job: vc.run_harness("vq_run", job[0], job[1], ["--cfg", c["name"]] + c.get("args", []),
+                                                           env=c.get("env")), jobs))
+                for _, ep in jobs:
+                    with open(ep) as fh:
+                        shutil.copyfileobj(fh, out)
+                    os.remove(ep)
+                nscen += len(sc)
     verdict = vc.validate(trace_module, trace_cfg, all_events, os.path.join(workdir, "val"))
     return verdict, all_events, nscen
 
@@ -51,6 +65,15 @@ def index_events(path, wanted):
     return res
 
 
+DML = ("ins", "upd", "del")
+TXN_CTL = ("begin", "commit", "rollback", "sp", "rollto", "release")
+NONTRIVIAL_RULE = ("each scenario is one history emitted by TLC for a transition of the bounded state graph (or by the "
+                   "seeded driver), replayed on the real engine; distinct = distinct rendered SQL history per "
+                   "configuration; non-trivial = at least one successful INSERT/UPDATE/DELETE (DDL does not count) and, "
+                   "besides it, at least one successful transaction-control statement, one observed query/consistency probe, "
+                   "or a second INSERT/UPDATE/DELETE (successful or rejected)")
+
+
 def measure(path):
     """Counts for the evidence file, measured from the recorded events."""
     n_events = 0
@@ -62,37 +85,75 @@ def measure(path):
             e = json.loads(ln)
             n_events += 1
             k = (e.get("sc"), e.get("cfg"))
-            s = scen.setdefault(k, {"chg": 0, "obs": 0, "sql": []})
+            s = scen.setdefault(k, {"dml": 0, "obs": 0, "ctl": 0, "sql": [], "dirty": False, "sp_dirty": False,
+                                    "rb": 0, "rt": 0, "cm": 0, "ndml": 0, "rej": 0})
             a = e["a"]["a"]
             if a == "reset":
                 continue
+            ok = e["out"] == "ok"
+            if a in DML:
+                s["ndml"] += 1
+                s["rej"] += 0 if ok else 1
             if a in ("q", "cq"):
                 s["obs"] += 1
-            elif e["out"] == "ok":
-                s["chg"] += 1
+            elif a in DML and ok:
+                s["dml"] += 1
+                if (e.get("st") or {}).get("txn"):
+                    s["dirty"] = True
+                    s["sp_dirty"] = True
+            elif a in TXN_CTL and ok:
+                s["ctl"] += 1
+                if a == "begin":
+                    s["dirty"] = s["sp_dirty"] = False
+                elif a == "sp":
+                    s["sp_dirty"] = False
+                elif a == "rollback":
+                    s["rb"] += 1 if s["dirty"] else 0
+                    s["dirty"] = s["sp_dirty"] = False
+                elif a == "commit":
+                    s["cm"] += 1 if s["dirty"] else 0
+                    s["dirty"] = s["sp_dirty"] = False
+                elif a == "rollto":
+                    s["rt"] += 1 if s["sp_dirty"] else 0
+                    s["sp_dirty"] = False
             s["sql"].append(e.get("sql", ""))
     distinct = set()
     nontrivial = 0
+    tot = {"rb": 0, "rt": 0, "cm": 0, "rej": 0}
+    nt = lambda x: x["dml"] >= 1 and (x["ctl"] >= 1 or x["obs"] >= 1 or x["ndml"] >= 2)
     for k, s in scen.items():
         h = hashlib.sha256(("\n".join(s["sql"]) + "|" + str(k[1])).encode()).hexdigest()
         if h in distinct:
             continue
         distinct.add(h)
-        if s["chg"] >= 1 and len(s["sql"]) >= 2:
+        if nt(s):
             nontrivial += 1
+        for t in tot:
+            tot[t] += s[t]
+    keys = list(scen.keys())
+    picks = [k for k in keys if nt(scen[k])] or keys
     samples = []
-    for k, s in list(scen.items())[:: max(1, len(scen) // 3)][:3]:
-        samples.append({"scenario": k[0], "cfg": k[1], "sql": s["sql"][:12]})
-    return {"events": n_events, "scenarios": len(scen), "distinct": len(distinct), "nontrivial": nontrivial, "samples": samples}
+    for k in picks[:: max(1, len(picks) // 3)][:3]:
+        samples.append({"scenario": k[0], "cfg": k[1], "sql": scen[k]["sql"][:12]})
+    return {"events": n_events, "scenarios": len(scen), "distinct": len(distinct), "nontrivial": nontrivial, "samples": samples,
+            "rollbacks_undoing_changes": tot["rb"], "rollback_to_undoing_changes": tot["rt"], "commits_keeping_changes": tot["cm"],
+            "rejected_dml_statements": tot["rej"]}
 
 
 def finish(prop, tier, seed, t0, verdict, events_path, gen_stats, level="model_checking", rule=None, assumptions=None,
-           extra_cov=None, extra_bad=None):
+           extra_cov=None, extra_bad=None, owns=None, configs=None):
     """Classify mismatches, write replay files and the evidence file, print the interface lines, return exit code."""
     known = vc.load_known()
     bad = list(verdict["bad"]) + list(extra_bad or [])
+    # a mismatch on a statement kind that another property's check owns (same scenarios, same validation) is
+    # reported by that check, not by this one; it is still counted in the evidence file
+    foreign = [b for b in bad if owns is not None and not owns(b)]
+    bad = [b for b in bad if owns is None or owns(b)]
+    for b in foreign[:5]:
+        vc.log("   [reported under another property] %s" % json.dumps({k: b.get(k) for k in ("sc", "i", "a", "what", "exp", "obs")}))
     wanted = {(b["sc"], b.get("cfg")) for b in bad}
     evs = index_events(events_path, wanted) if wanted else {}
+    cfgmap = {c["name"]: c for c in (configs or [])}
     rdir = os.path.join(vc.RUN, "replay", prop)
     shutil.rmtree(rdir, ignore_errors=True)
     violations, known_hits = [], {}
@@ -112,6 +173,8 @@ def finish(prop, tier, seed, t0, verdict, events_path, gen_stats, level="model_c
             json.dump({"property": prop, "bad": b,
                        "scenario": {"id": b["sc"], "steps": [e["a"] for e in trace if e["a"]["a"] != "reset"]},
                        "cfg": b.get("cfg"),
+                       "cfg_args": cfgmap.get(b.get("cfg"), {}).get("args", []),
+                       "cfg_env": cfgmap.get(b.get("cfg"), {}).get("env") or {},
                        "sql": [e.get("sql") for e in trace],
                        "failing_event": {k2: v for k2, v in (ev or {}).items() if k2 != "_history"}}, fh, indent=1)
         violations.append((b, rp))
@@ -134,14 +197,19 @@ def finish(prop, tier, seed, t0, verdict, events_path, gen_stats, level="model_c
                     fmt((ev0.get("st") or {}).get("T")), fmt(b.get("want")), fmt(ev0.get("rows")), ev0.get("msg", "")))
     for kid, h in known_hits.items():
         print("KNOWN-FINDING: property=%s %s: %s (%d events)" % (prop, kid, h["k"].get("what", ""), h["n"]))
-    seen = set()
+    seen = {}
+    printed = 0
     for b, rp in violations:
         sig = (b["a"], b["what"], b.get("exp"), b.get("obs"), b.get("cfg"))
-        if sig in seen and len(seen) > 20:
+        seen[sig] = seen.get(sig, 0) + 1
+        if seen[sig] > 5 or printed >= 40:
             continue
-        seen.add(sig)
+        printed += 1
         print("VIOLATION property=%s replay=%s" % (prop, rp))
         vc.log("   %s" % json.dumps(b))
+    if len(violations) > printed:
+        vc.log("   ... %d further violations not printed; replay files are in %s, summary in run/triage_%s.txt" % (
+            len(violations) - printed, rdir, prop))
     m = measure(events_path)
     cov = {
         "states": max(1, int(gen_stats.get("distinct_states", 0))),
@@ -150,15 +218,19 @@ def finish(prop, tier, seed, t0, verdict, events_path, gen_stats, level="model_c
         "samples": m["samples"],
         "evaluations": m["events"],
         "distinct_nontrivial": m["nontrivial"],
-        "rule": rule or ("each scenario is one history emitted by TLC for a transition of the bounded state graph (or by the "
-                         "seeded driver), replayed on the real engine; distinct = distinct rendered SQL history per "
-                         "configuration; non-trivial = at least one successful state-changing statement and at least two statements"),
+        "rule": rule or NONTRIVIAL_RULE,
+        "distinct_scenarios": m["distinct"],
+        "rollbacks_undoing_changes": m["rollbacks_undoing_changes"],
+        "rollback_to_undoing_changes": m["rollback_to_undoing_changes"],
+        "commits_keeping_changes": m["commits_keeping_changes"],
+        "rejected_dml_statements": m["rejected_dml_statements"],
         "events_validated": verdict["n"],
         "events_conforming": verdict["cnt"].get("ok", 0),
         "events_unmodelled": verdict["cnt"].get("unmodelled", 0),
         "events_skipped_after_desync": verdict["cnt"].get("skipped", 0),
         "query_results_checked": verdict["cnt"].get("queries", 0),
         "known_finding_events": sum(h["n"] for h in known_hits.values()),
+        "mismatches_reported_under_another_property": len(foreign),
         "mc_model_ok": bool(gen_stats.get("mc_ok", True)),
         "exhaustive": bool(gen_stats.get("exhaustive", False)),
     }
@@ -167,4 +239,7 @@ def finish(prop, tier, seed, t0, verdict, events_path, gen_stats, level="model_c
     vc.write_evidence(prop, tier, seed, level, cov, time.time() - t0, len(violations), assumptions=assumptions or [
         "TLC evaluates the specification correctly", "harness rendering (AST -> SQL) and projection (Database -> abstract state) are faithful",
     ])
+    if not violations and not known_hits and os.environ.get("VERIF_KEEP") != "1":
+        # the recorded events of a clean run are not needed any more (several hundred MB at thorough bounds)
+        shutil.rmtree(os.path.dirname(events_path), ignore_errors=True)
     return 1 if violations else 0
